@@ -474,6 +474,8 @@ func c11(c *Ctx) (*report.Result, error) {
 	checkSessionIDs(c, res, "O11.6")
 	res.RuleDoc["O11.8"] = "locks are paired (same analysis as O8.13): every Lock / RLock of the transport packages is released on every way out of its function and every Unlock is preceded by its Lock - a leaked session-table or connection-map lock parks every later session change and dial"
 	checkLockPairing(c, res, "O11.8", []string{"transport/grpcutil", "transport/mux"}, 8)
+	res.RuleDoc["O11.9"] = "no session, no waiting: the module does not switch its calls to wait-for-ready (no grpc.WaitForReady(true) among the default call options), so an RPC made while the session set is empty returns Unavailable at once"
+	checkNoWaitForReady(c, res, "O11.9")
 	res.RuleDoc["O11.7"] = "no swallowed error in the files the mechanism lives in: no function returns a nil error on a path on which an error obtained from a call is known to be non-nil (io.EOF from a stream Recv, the normal end of a receive loop, is the one accepted idiom)"
 	checkNoSwallowedErrors(c, res, "O11.7", []string{"transport/grpcutil/multi_client_conn.go", "transport/mux/multi_mux_manager.go"})
 	return res, nil
